@@ -136,7 +136,7 @@ def lr1_not_lalr(rng, idx):
         pre = TS[:k]
         fol = TS[:m] if rng.random() < 0.5 else TS[1:m + 1]
         items = NTS[1:1 + m]
-        body = rng.choice([[e], [e, e], ["C"]])
+        body = rng.choice([[e], [e, e], ["E"]])
         prods = []
         for i in range(k):
             for j in range(m):
@@ -144,9 +144,9 @@ def lr1_not_lalr(rng, idx):
         for j in range(m):
             prods.append((items[j], list(body) + ([] if j == 0 or rng.random() < 0.7 else [e])))
         nts = ["S"] + items
-        if body == ["C"]:
-            nts.append("C")
-            prods += [("C", [e]), ("C", [e, "C"])] if rng.random() < 0.5 else [("C", [e])]
+        if body == ["E"]:
+            nts.append("E")
+            prods += [("E", [e]), ("E", [e, "E"])] if rng.random() < 0.5 else [("E", [e])]
         ts = list(TS)
         used = [t for t in ts if any(t in r_ for _, r_ in prods)]
         return {"id": "x%05d" % idx, "ts": used, "nts": nts, "starts": ["S"],
